@@ -350,6 +350,11 @@ bool dis_interval<Number>::operator<=(const dis_interval<Number> &o) const {
     return true;
   } else if (o.is_bottom()) {
     return false;
+  } else if (o.is_top()) {
+    return true;
+  } else if (this->is_top()) {
+    // top has no intervals in m_list
+    return false;
   } else {
 
     unsigned j = 0;
